@@ -118,7 +118,7 @@ func spec_sortedKeys[V any](m map[string]V) []string {
 
 // spec_Effect: one file-system effect of a run (the only modelled ways bytes on disk change).
 type spec_Effect struct {
-	Kind int // spec_Open: file created or truncated; spec_Write: bytes written to an open file; spec_Remove; spec_SaveSum: gengo.sum rewritten
+	Kind int // spec_Open: file created or truncated; spec_Write: bytes written to an open file; spec_Remove; spec_SaveSum: gengo.sum rewritten; spec_OpenKeep: opened for writing WITHOUT truncation
 	Path string
 }
 
@@ -127,6 +127,7 @@ const (
 	spec_Write   = 2
 	spec_Remove  = 3
 	spec_SaveSum = 4
+	spec_OpenKeep = 5
 )
 
 // spec_fx(): the effect log so far, in order (ghost).
